@@ -180,7 +180,7 @@ impl Prop for C03 {
             vec!["stream (SimStream)"],
         )
     }
-    fn gen(&self, rng: &mut Rng, _tier: Tier, _index: u64) -> J {
+    fn gen_inner(&self, rng: &mut Rng, _tier: Tier, _index: u64) -> J {
         let limit = if rng.chance(2, 3) { None } else { Some(*rng.pick(&[0usize, 1, 7, 100, 1024, usize::MAX >> 1])) };
         let mut cfg = GenCfg::default_for(limit.unwrap_or(51200).min(51200));
         cfg.corrupt = 500;
@@ -271,7 +271,7 @@ impl Prop for C03 {
         }
         FuzzCase { limit, stream, ops }.to_json()
     }
-    fn exec(&self, case: &J, st: &mut Stats) -> Result<RunOut, String> {
+    fn exec_inner(&self, case: &J, st: &mut Stats) -> Result<RunOut, String> {
         let case = FuzzCase::from_json(case)?;
         let mut conn = Conn::new(case.stream.clone(), case.limit);
         let mut sig = Sig::new();
@@ -460,7 +460,7 @@ impl Prop for C12 {
             vec!["stream (SimStream hands real pipe descriptors to the library's fds array)"],
         )
     }
-    fn gen(&self, rng: &mut Rng, _tier: Tier, _index: u64) -> J {
+    fn gen_inner(&self, rng: &mut Rng, _tier: Tier, _index: u64) -> J {
         let mut cfg = GenCfg::default_for(51200);
         cfg.corrupt = 0;
         cfg.truncate = 100;
@@ -517,7 +517,7 @@ impl Prop for C12 {
         c.low_fd_later = !c.use_fd0 && !c.real_socket && rng.chance(1, 12);
         c.to_json()
     }
-    fn exec(&self, case: &J, st: &mut Stats) -> Result<RunOut, String> {
+    fn exec_inner(&self, case: &J, st: &mut Stats) -> Result<RunOut, String> {
         let case = ConnCase::from_json(case)?;
         let m = model_stream(&case.stream, case.eff_limit(), WINDOW);
         if m.unspecified || m.events.iter().any(|e| matches!(e.1, MEvent::Error(_))) {
